@@ -2271,6 +2271,18 @@ fn kamino_driver(out: &str, seed: u64, n: u64) {
                 }
             }
         }
+        // the feed is older than the reserve's last refresh, which is older than now
+        for (dt, back) in [(7i64, 1u64), (30, 25), (0, 1)] {
+            r.fork(&mut |r: &mut Recorder| {
+                r.act(json!({"op":"tick","dt":dt,"refresh_oracles":false}));
+                let slot = r.ex.env.world.clock.slot;
+                r.act(json!({"op":"set_kamino_reserve","reserve":"KR1","slot":slot - back}));
+                r.act(mkb(1));
+                r.act(json!({"op":"pulse_health","acct":"A1"}));
+                r.act(json!({"op":"set_kamino_reserve","reserve":"KR1","slot":slot}));
+                r.act(mkb(1));
+            });
+        }
         // the venue moves on: a slot later the reserve is stale until somebody refreshes it
         r.act(json!({"op":"tick","dt": *pick(&mut rng, &[1i64, 10, 3600])}));
         r.act(mkb(1));
@@ -2472,6 +2484,18 @@ fn solend_driver(out: &str, seed: u64, n: u64) {
                 }
             }
         }
+        // the feed is older than the reserve's last refresh, which is older than now
+        for (dt, back) in [(7i64, 1u64), (30, 25), (0, 1)] {
+            r.fork(&mut |r: &mut Recorder| {
+                r.act(json!({"op":"tick","dt":dt,"refresh_oracles":false}));
+                let slot = r.ex.env.world.clock.slot;
+                r.act(json!({"op":"set_solend_reserve","reserve":"SR1","slot":slot - back}));
+                r.act(mkb(1));
+                r.act(json!({"op":"pulse_health","acct":"A1"}));
+                r.act(json!({"op":"set_solend_reserve","reserve":"SR1","slot":slot}));
+                r.act(mkb(1));
+            });
+        }
         // the venue moves on: a slot later the reserve is stale until somebody refreshes it
         r.act(json!({"op":"tick","dt": *pick(&mut rng, &[1i64, 10, 3600])}));
         r.act(mkb(1));
@@ -2648,6 +2672,19 @@ fn drift_driver(out: &str, seed: u64, n: u64) {
                     nb += 1;
                 }
             }
+        }
+        // the feed is older than the market's last update, which is older than now: the rate is measured against the clock, not
+        // against the price it is applied to
+        for (dt, back) in [(7i64, 1i64), (30, 12), (2, 1)] {
+            r.fork(&mut |r: &mut Recorder| {
+                r.act(json!({"op":"tick","dt":dt,"refresh_oracles":false}));
+                let now = r.ex.env.world.clock.unix_timestamp;
+                r.act(json!({"op":"set_drift_market","market":"DM1","ts":now - back}));
+                r.act(mkb(1));
+                r.act(json!({"op":"pulse_health","acct":"A1"}));
+                r.act(json!({"op":"set_drift_market","market":"DM1","ts":now}));
+                r.act(mkb(1));
+            });
         }
         // time passes: the market's interest is stale until somebody brings it up to date
         r.act(json!({"op":"tick","dt": *pick(&mut rng, &[1i64, 10, 3600])}));
